@@ -16,6 +16,8 @@ digit lists, exceptions become outcomes; TLC judges.
 """
 import io
 import json
+import logging
+import re
 import sys
 import unicodedata
 
@@ -61,6 +63,40 @@ def construct(kind, lst, salt):
     return FileAnonymizer(anon_pwd=False, anon_ip=False, salt=salt, as_numbers=list(lst))
 
 
+class _Capture(logging.Handler):
+    def __init__(self):
+        super().__init__(level=logging.WARNING)
+        self.records = []
+
+    def emit(self, record):
+        self.records.append(record)
+
+
+def construct_without_salt(lst):
+    """FileAnonymizer(salt=None, ...): netconan generates a salt and reports it.  Returns
+    (anonymizer, reported salt or None).  The salt is read from the public attribute `.salt`;
+    if that is missing, from the WARNING record (its string argument, else a quoted token)."""
+    root = logging.getLogger()
+    cap = _Capture()
+    root.addHandler(cap)          # also keeps logging.warning from installing a stderr handler
+    try:
+        obj = construct("file", lst, None)
+    finally:
+        root.removeHandler(cap)
+    salt = getattr(obj, "salt", None)
+    if not isinstance(salt, str):
+        salt = None
+        for rec in cap.records:
+            args = rec.args if isinstance(rec.args, tuple) else (rec.args,)
+            cand = [a for a in args if isinstance(a, str)]
+            if not cand:
+                cand = re.findall(r'"([^"]*)"', rec.getMessage()) or re.findall(r"'([^']*)'", rec.getMessage())
+            if cand:
+                salt = cand[0]
+                break
+    return obj, salt
+
+
 def run_line(kind, obj, text):
     if kind == "class":
         from netconan.sensitive_item_removal import anonymize_as_numbers
@@ -77,14 +113,42 @@ def execute(ops, insts=None):
     for op in ops:
         what = op[0]
         if what == "new":
-            _, i, kind, salt, lst = op
+            # salt: a string | None (FileAnonymizer generates and reports one) | {"of": j} (the salt
+            # reported by instance j); optional 6th element: the api level whose salt name space the
+            # instance joins (default: its own kind)
+            _, i, kind, salt, lst = op[:5]
+            ns = op[5] if len(op) > 5 else kind
+            salts = insts.setdefault("salts", {})
+            obj, outcome, used = None, "ok", salt
             try:
-                obj, outcome = construct(kind, lst, salt), "ok"
+                if isinstance(salt, dict):
+                    used = salts.get(salt["of"])
+                    if used is None:
+                        raise common.MachineryError("no reported salt to reuse")
+                    obj = construct(kind, lst, used)
+                elif salt is None:
+                    obj, used = construct_without_salt(lst)
+                else:
+                    obj = construct(kind, lst, salt)
+            except common.MachineryError:
+                outcome, used = "unobserved", None
             except Exception as e:
                 obj, outcome = None, _outcome(e)
+            if used is None:
+                # nothing to key the observations with: an opaque one-off salt (compared with nothing)
+                obj = None if outcome == "unobserved" else obj
+                sid = "u%d/%d" % (id(insts), i)
+                outcome = "ok" if outcome == "unobserved" else outcome
+                unobserved = True
+            else:
+                sid = hexsalt(ns, used)
+                unobserved = False
+            salts[i] = used
             insts[i] = (kind, obj)
-            evs.append({"ev": "new", "inst": i, "salt": hexsalt(kind, salt), "list": [digits(n) for n in lst],
+            evs.append({"ev": "new", "inst": i, "salt": sid, "list": [digits(n) for n in lst],
                         "outcome": outcome})
+            if unobserved:
+                evs[-1]["salt_unobserved"] = True
         elif what == "anon":
             _, i, ns, learn = op
             kind, obj = insts[i]
